@@ -13,12 +13,14 @@ import VaxisModel.Model.Parser
 namespace VaxisModel.Model.ParserIO
 open VaxisModel.Model.ParserTable VaxisModel.Model.Parser
 
+/-- Bytes are natural numbers (< 256 in every stream the drivers and theorems feed); the decoding functions
+    below are stated over `Nat` so that `omega` sees their pattern variables. -/
 abbrev Byte := Nat
 
 /-! ### unicode/utf8 (Go 1.2x `utf8.DecodeRune`, `utf8.FullRune`) -/
 
 /-- `first[b]` decoded: (size, accept-lo, accept-hi) for a valid leading byte ≥ 0x80. -/
-def lead (b : Byte) : Option (Nat × Nat × Nat) :=
+def lead (b : Nat) : Option (Nat × Nat × Nat) :=
   if 0xC2 ≤ b ∧ b ≤ 0xDF then some (2, 0x80, 0xBF)
   else if b = 0xE0 then some (3, 0xA0, 0xBF)
   else if 0xE1 ≤ b ∧ b ≤ 0xEC then some (3, 0x80, 0xBF)
@@ -29,12 +31,12 @@ def lead (b : Byte) : Option (Nat × Nat × Nat) :=
   else if b = 0xF4 then some (4, 0x80, 0x8F)
   else none
 
-def isCont (b : Byte) : Bool := decide (0x80 ≤ b) && decide (b ≤ 0xBF)
+def isCont (b : Nat) : Bool := decide (0x80 ≤ b) && decide (b ≤ 0xBF)
 
 def runeError : Rune := 0xFFFD
 
 /-- `utf8.DecodeRune` on a non-empty buffer: (rune, size). -/
-def decodeRune : List Byte → Rune × Nat
+def decodeRune : List Nat → Rune × Nat
   | [] => (runeError, 0)
   | b0 :: rest =>
     if b0 < 0x80 then (b0, 1)
@@ -59,7 +61,7 @@ def decodeRune : List Byte → Rune × Nat
                   else ((b0 % 8) * 262144 + (b1 % 64) * 4096 + (b2 % 64) * 64 + b3 % 64, 4)
 
 /-- `utf8.FullRune`. -/
-def fullRune : List Byte → Bool
+def fullRune : List Nat → Bool
   | [] => false
   | b0 :: rest =>
     if b0 < 0x80 then true
